@@ -2,7 +2,7 @@
 # usage: tools/benigncheck.sh <diff>...  — apply each behaviour-preserving refactoring to /repo, run every property's rules, undo it.
 cd /repo || exit 2
 for D in "$@"; do
-  D=$(readlink -f "$D")
+  D=$(cd /verif && readlink -f "$D")
   [ -n "$(git status --porcelain --untracked-files=no)" ] && { echo "/repo is not clean"; exit 2; }
   echo "=== $D"
   git apply "$D" || { echo "  does not apply"; continue; }
